@@ -304,6 +304,138 @@ fn random_account(rng: &mut Rng) -> ref_state::Account {
     }
 }
 
+/// key taken from the image at `off` (what a validation argument must equal to match — or, under a NONE
+/// tag, the stale payload that must NOT match), or a random key if the image is too short
+fn key_at(rng: &mut Rng, b: &[u8], off: usize) -> Pubkey {
+    match b.get(off..off + 32) {
+        Some(s) => Pubkey::new_from_array(s.try_into().unwrap()),
+        None => rkey(rng),
+    }
+}
+
+/// the full argument grid of `validate_mint` on one image
+fn vmint_grid(rng: &mut Rng, owner: &Pubkey, b: &[u8]) -> Vec<String> {
+    let dec = b.get(44).copied().unwrap_or(0);
+    let decs = ["any".to_string(), dec.to_string(), (dec ^ 1).to_string()];
+    let auths = ["any".to_string(), hk(&key_at(rng, b, 4)), hk(&rkey(rng))];
+    let frs = ["any".to_string(), "none".to_string(), hk(&key_at(rng, b, 50)), hk(&rkey(rng))];
+    let mut out = vec![];
+    for d in &decs {
+        for a in &auths {
+            for f in &frs {
+                out.push(format!("vmint {} {} {d} {a} {f}", hk(owner), hex(b)));
+            }
+        }
+    }
+    out
+}
+
+fn vmint_random(rng: &mut Rng, owner: &Pubkey, b: &[u8]) -> String {
+    let g = vmint_grid(rng, owner, b);
+    g[rng.below(g.len() as u64) as usize].clone()
+}
+
+fn vtoken_grid(rng: &mut Rng, owner: &Pubkey, b: &[u8]) -> Vec<String> {
+    let mints = ["any".to_string(), hk(&key_at(rng, b, 0)), hk(&rkey(rng))];
+    let owns = ["any".to_string(), hk(&key_at(rng, b, 32)), hk(&rkey(rng))];
+    let mut out = vec![];
+    for m in &mints {
+        for o in &owns {
+            out.push(format!("vtoken {} {} {m} {o}", hk(owner), hex(b)));
+        }
+    }
+    out
+}
+
+fn vtoken_random(rng: &mut Rng, owner: &Pubkey, b: &[u8]) -> String {
+    let g = vtoken_grid(rng, owner, b);
+    g[rng.below(g.len() as u64) as usize].clone()
+}
+
+fn nonzero(rng: &mut Rng, n: usize) -> Vec<u8> {
+    rng.bytes(n).into_iter().map(|x| x | 1).collect()
+}
+
+/// Every COption cell of a valid image, three ways: (a) tag NONE over NON-ZERO stale payload bytes, written
+/// directly; (b) tag SOME over an all-zero payload; (c) the reference's own unpack -> clear -> pack
+/// sequence (`pack_coption_*` writes only the tag for `None`, so the previous payload stays behind — what
+/// the SPL program leaves after `SetAuthority(None)` / `Revoke` / closing the native flag).
+fn stale_mint_images(rng: &mut Rng) -> Vec<(String, Vec<u8>)> {
+    let mut out = vec![];
+    let mut m = random_mint(rng);
+    m.is_initialized = true;
+    m.mint_authority = COption::Some(rkey(rng));
+    m.freeze_authority = COption::Some(rkey(rng));
+    let base = pack_mint(m);
+    for (name, tag, len) in [("mint_authority", 0usize, 32usize), ("freeze_authority", 46, 32)] {
+        let mut b = base.clone();
+        b[tag..tag + 4].copy_from_slice(&[0, 0, 0, 0]);
+        let stale = nonzero(rng, len);
+        b[tag + 4..tag + 4 + len].copy_from_slice(&stale);
+        out.push((format!("{name} NONE over stale payload (direct)"), b));
+        let mut b = base.clone();
+        b[tag..tag + 4].copy_from_slice(&[1, 0, 0, 0]);
+        b[tag + 4..tag + 4 + len].fill(0);
+        out.push((format!("{name} SOME over zero payload"), b));
+        // reference sequence on the same buffer
+        let mut b = base.clone();
+        let mut u = ref_state::Mint::unpack(&b).unwrap();
+        if name == "mint_authority" {
+            u.mint_authority = COption::None;
+        } else {
+            u.freeze_authority = COption::None;
+        }
+        ref_state::Mint::pack(u, &mut b).unwrap();
+        out.push((format!("{name} cleared by reference unpack/clear/pack"), b));
+    }
+    // both cleared
+    let mut b = base.clone();
+    let mut u = ref_state::Mint::unpack(&b).unwrap();
+    u.mint_authority = COption::None;
+    u.freeze_authority = COption::None;
+    ref_state::Mint::pack(u, &mut b).unwrap();
+    out.push(("both authorities cleared by the reference".to_string(), b));
+    out
+}
+
+fn stale_token_images(rng: &mut Rng) -> Vec<(String, Vec<u8>)> {
+    let mut out = vec![];
+    let mut a = random_account(rng);
+    a.state = if rng.chance(1, 3) { ref_state::AccountState::Frozen } else { ref_state::AccountState::Initialized };
+    a.delegate = COption::Some(rkey(rng));
+    a.is_native = COption::Some(rng.next() | 1);
+    a.close_authority = COption::Some(rkey(rng));
+    let base = pack_account(a);
+    for (name, tag, len) in [("delegate", 72usize, 32usize), ("is_native", 109, 8), ("close_authority", 129, 32)] {
+        let mut b = base.clone();
+        b[tag..tag + 4].copy_from_slice(&[0, 0, 0, 0]);
+        let stale = nonzero(rng, len);
+        b[tag + 4..tag + 4 + len].copy_from_slice(&stale);
+        out.push((format!("{name} NONE over stale payload (direct)"), b));
+        let mut b = base.clone();
+        b[tag..tag + 4].copy_from_slice(&[1, 0, 0, 0]);
+        b[tag + 4..tag + 4 + len].fill(0);
+        out.push((format!("{name} SOME over zero payload"), b));
+        let mut b = base.clone();
+        let mut u = ref_state::Account::unpack(&b).unwrap();
+        match name {
+            "delegate" => u.delegate = COption::None,
+            "is_native" => u.is_native = COption::None,
+            _ => u.close_authority = COption::None,
+        }
+        ref_state::Account::pack(u, &mut b).unwrap();
+        out.push((format!("{name} cleared by reference unpack/clear/pack"), b));
+    }
+    let mut b = base.clone();
+    let mut u = ref_state::Account::unpack(&b).unwrap();
+    u.delegate = COption::None;
+    u.is_native = COption::None;
+    u.close_authority = COption::None;
+    ref_state::Account::pack(u, &mut b).unwrap();
+    out.push(("all options cleared by the reference".to_string(), b));
+    out
+}
+
 struct Out {
     cases: Vec<Vec<String>>,
 }
@@ -411,6 +543,37 @@ pub fn generate(args: &Args) -> Vec<Vec<String>> {
         }
         perturb(&mut out, &mut rng, "token", &pack_account(a), &[72, 109, 129], 108, &[0, 1, 2, 3, 4, 255]);
     }
+    // COption cells: NONE over stale payload / SOME over zero payload / reference clear sequence, each with
+    // the raw view and the full validate_mint / validate_token argument grid
+    for _ in 0..(3 * scale) {
+        for (label, b) in stale_mint_images(&mut rng) {
+            let mut ops = vec![format!("mint {} {}", hk(&tok_id()), hex(&b))];
+            ops.extend(vmint_grid(&mut rng, &tok_id(), &b));
+            out.push(&format!("image mint stale: {label}"), ops);
+        }
+        for (label, b) in stale_token_images(&mut rng) {
+            let mut ops = vec![format!("token {} {}", hk(&tok_id()), hex(&b))];
+            ops.extend(vtoken_grid(&mut rng, &tok_id(), &b));
+            out.push(&format!("image token stale: {label}"), ops);
+        }
+        // validation grid on ordinary valid images too (None stored as all-zero, Some, frozen …)
+        let b = pack_mint({
+            let mut m = random_mint(&mut rng);
+            m.is_initialized = true;
+            m
+        });
+        let ops = vmint_grid(&mut rng, &tok_id(), &b);
+        out.push("validate mint grid", ops);
+        let b = pack_account({
+            let mut a = random_account(&mut rng);
+            if a.state == ref_state::AccountState::Uninitialized {
+                a.state = ref_state::AccountState::Frozen;
+            }
+            a
+        });
+        let ops = vtoken_grid(&mut rng, &tok_id(), &b);
+        out.push("validate token grid", ops);
+    }
     // all-zero and random images
     let tok = hk(&tok_id());
     out.push("image mint zero", vec![format!("mint {tok} {}", hex(&[0u8; 82]))]);
@@ -450,13 +613,21 @@ pub fn generate(args: &Args) -> Vec<Vec<String>> {
                 let mut b = pack_mint(random_mint(&mut rng));
                 let kind = mutate(&mut rng, &mut b, &[0, 1, 2, 3, 45, 46, 47, 48, 49]);
                 let owner = if rng.chance(1, 30) { rkey(&mut rng) } else { tok_id() };
-                out.push(&format!("image mint prng {kind}"), vec![format!("mint {} {}", hk(&owner), hex(&b))]);
+                let mut ops = vec![format!("mint {} {}", hk(&owner), hex(&b))];
+                if rng.chance(1, 2) {
+                    ops.push(vmint_random(&mut rng, &owner, &b));
+                }
+                out.push(&format!("image mint prng {kind}"), ops);
             }
             7 | 8 => {
                 let mut b = pack_account(random_account(&mut rng));
                 let kind = mutate(&mut rng, &mut b, &[72, 73, 74, 75, 108, 109, 110, 111, 112, 129, 130, 131, 132]);
                 let owner = if rng.chance(1, 30) { rkey(&mut rng) } else { tok_id() };
-                out.push(&format!("image token prng {kind}"), vec![format!("token {} {}", hk(&owner), hex(&b))]);
+                let mut ops = vec![format!("token {} {}", hk(&owner), hex(&b))];
+                if rng.chance(1, 2) {
+                    ops.push(vtoken_random(&mut rng, &owner, &b));
+                }
+                out.push(&format!("image token prng {kind}"), ops);
             }
             _ => {
                 // find_program_address is the expensive op: fewer of them
@@ -471,7 +642,19 @@ pub fn generate(args: &Args) -> Vec<Vec<String>> {
 
 /// random mutation of a packed image; returns a label
 fn mutate(rng: &mut Rng, b: &mut Vec<u8>, hot: &[usize]) -> &'static str {
-    match rng.below(10) {
+    match rng.below(12) {
+        10 | 11 => {
+            // clear one COption tag and leave / plant non-zero payload bytes behind it
+            let cells: &[(usize, usize)] = if b.len() == 82 { &[(0, 32), (46, 32)] } else { &[(72, 32), (109, 8), (129, 32)] };
+            let (t, n) = *rng.pick(cells);
+            b[t..t + 4].copy_from_slice(&[0, 0, 0, 0]);
+            if rng.chance(1, 2) {
+                for x in &mut b[t + 4..t + 4 + n] {
+                    *x = (rng.next() as u8) | 1;
+                }
+            }
+            "stale-payload"
+        }
         0..=3 => "valid",
         4 | 5 => {
             let p = *rng.pick(hot);
